@@ -23,7 +23,7 @@ func TestVerif(t *testing.T) {
 			"Each execution runs the call undisturbed and then once more per retry pause with the context cancelled at half of that pause (WithCancel+AfterFunc, and WithTimeout), replaying the same answers. " +
 			"Checked per call: body bytes received on every attempt = original (prefix when the fake stopped reading), attempts per send <= MaxRetry+1, every gap between attempts of a send within [MinWait,MaxWait], = the pause the policy granted (recorded by a pass-through policy wrapper) and = clamp(Retry-After) after 429 Retry-After:N, " +
 			"zero virtual time anywhere else, no attempt after a non-retryable answer, returned response = last answer, cancellation => ctx error at the cancel instant and no later attempt; any panic is a violation. " +
-			"(b) plain sweep of GenericPolicy.Retry + ExponentialBackoff: attempt 0..70 x backoff {1ms,250ms} x factor {1,2,10} x jitter {0,0.1,0.5,1} x (MinWait,MaxWait) {(0,0),(200ms,3s),(3s,200ms)} x MaxRetry {0,3,71} x 18 answers (incl. seven Retry-After forms). " +
+			"(b) plain sweep of GenericPolicy.Retry + ExponentialBackoff: attempt 0..70 x backoff {1ms,250ms} x factor {1,2,10} x jitter {0,0.1,0.5,1} x (MinWait,MaxWait) {(0,0),(200ms,3s),(3s,200ms),(2s,10s)} x MaxRetry {0,3,71} x 18 answers (incl. seven Retry-After forms). " +
 			"non-trivial = (a) distinct (configuration, first three answers) of executions in which a request with a body reached the registry more than once, (b) distinct parameter tuples for which a pause was computed and judged",
 		Assumptions: []string{
 			"the jitter draw (math/rand/v2 redirected to the engine's vrand) always returns its low extreme 0; the high extreme is not selectable in this engine version, the bounds clause is insensitive to it because of the clamp",
